@@ -4,6 +4,7 @@ import (
 	"errors"
 	"fmt"
 	"math"
+	"runtime"
 	"sort"
 	"strings"
 	"sync"
@@ -60,6 +61,10 @@ func runC14(c *core.Ctx) {
 	n := r.Range(0, 2000)
 	if r.Chance(2, 3) {
 		n = r.Range(0, 30)
+	}
+	if c.Index%400 == 11 {
+		c14big(c)
+		return
 	}
 	alpha := []string{"a", "A", "b", "B", "c", "dd", "", "e", "E", "zz"}[:r.Range(1, 10)]
 	if r.Chance(1, 2) {
@@ -223,11 +228,143 @@ func c14nested(c *core.Ctx, in []string, r *core.Rand) bool {
 	if innerMsg != "" {
 		return fail("nested-helper-call", "inside a callback: "+innerMsg)
 	}
+	// results are the caller's: kept across later calls of the same helpers on OTHER
+	// data, they must not change (a helper handing out a pooled or shared buffer would)
+	{
+		k1 := slices.Filter(in, func(v string) bool { return len(v)%2 == 0 })
+		k2 := slices.Map(in, func(v string) string { return v + "?" })
+		k3 := slices.Distinct(in)
+		k4 := slices.Except(in, in[:1])
+		k5 := slices.GroupBy(in, func(v string) int { return len(v) })
+		s1, s2, s3, s4 := append([]string(nil), k1...), append([]string(nil), k2...), append([]string(nil), k3...), append([]string(nil), k4...)
+		var s5 [][]string
+		for _, g := range k5 {
+			s5 = append(s5, append([]string(nil), g.Values...))
+		}
+		for rep := 0; rep < 2; rep++ {
+			_ = slices.Filter(other, func(v string) bool { return true })
+			_ = slices.Map(other, func(v string) string { return "x" + v })
+			_ = slices.Distinct(other)
+			_ = slices.Except(other, other[:1])
+			_ = slices.GroupBy(other, func(v string) int { return len(v) })
+		}
+		same := eqSlice(k1, s1) && eqSlice(k2, s2) && eqSlice(k3, s3) && eqSlice(k4, s4)
+		for i, g := range k5 {
+			same = same && eqSlice(g.Values, s5[i])
+		}
+		if !same {
+			return fail("result-changed-by-later-call", "a slice returned by Filter/Map/Distinct/Except/GroupBy changed when the helper was called again on other data")
+		}
+	}
 	if !eqSlice(in, snap) {
 		return fail("nested:input-modified", "the input was modified")
 	}
 	c.Count("nested_callback_cases", 1)
 	return true
+}
+
+// c14big: the linear helpers on 33 000..70 000 elements (beyond 2^15 and 2^16), under
+// the default GOMAXPROCS and under 2, 3 and NumCPU/2+1 - thresholds above which a
+// helper might switch to blocked or parallel processing.
+func c14big(c *core.Ctx) {
+	r := c.R
+	n := r.Range(33000, 70000)
+	in := make([]int, n, n+3)
+	for i := range in {
+		in[i] = r.Intn(50)
+	}
+	for i := n; i < n+3; i++ {
+		in[:n+3][i] = -99
+	}
+	snap := append([]int(nil), in...)
+	var wantF, wantM, wantD []int
+	seen := map[int]bool{}
+	cnt := map[int]int{}
+	var order []int
+	sum := 0
+	for i, v := range snap {
+		if (i+v)%3 == 0 {
+			wantF = append(wantF, v)
+		}
+		wantM = append(wantM, v*2+i%2)
+		if !seen[v] {
+			seen[v] = true
+			wantD = append(wantD, v)
+			order = append(order, v)
+		}
+		cnt[v]++
+		sum = sum*31 + v
+	}
+	excl := []int{3, 7, 11}
+	var wantE []int
+	for _, v := range snap {
+		if v != 3 && v != 7 && v != 11 {
+			wantE = append(wantE, v)
+		}
+	}
+	old := runtime.GOMAXPROCS(0)
+	defer runtime.GOMAXPROCS(old)
+	for _, procs := range []int{old, 2, 3, runtime.NumCPU()/2 + 1} {
+		runtime.GOMAXPROCS(procs)
+		fail := func(sig, msg string) {
+			c.Violate(sig+"[big]", fmt.Sprintf("%s [%d elements over 50 values, GOMAXPROCS=%d]", msg, n, procs), nil)
+		}
+		pos := 0
+		if got := slices.Filter(in, func(v int) bool { pos++; return (pos-1+v)%3 == 0 }); !eqSlice(got, wantF) {
+			fail("Filter:result", fmt.Sprintf("Filter keeps %d elements, the definition %d (or other ones)", len(got), len(wantF)))
+			return
+		}
+		pos = 0
+		if got := slices.Map(in, func(v int) int { pos++; return v*2 + (pos-1)%2 }); !eqSlice(got, wantM) {
+			fail("Map:result", "Map gives other values than the definition (or calls the converter out of order)")
+			return
+		}
+		if got := slices.Distinct(in); !eqSlice(got, wantD) {
+			fail("Distinct:result", fmt.Sprintf("Distinct gives %v want %v", clip(got), clip(wantD)))
+			return
+		}
+		if got := slices.Except(in, excl); !eqSlice(got, wantE) {
+			fail("Except:result", fmt.Sprintf("Except keeps %d elements, the definition %d", len(got), len(wantE)))
+			return
+		}
+		if got := slices.Fold(in, 0, func(st, v int) int { return st*31 + v }); got != sum {
+			fail("Fold:result", "Fold gives another state than the left-to-right definition")
+			return
+		}
+		gs := slices.GroupBy(in, func(v int) int { return v })
+		cs := slices.CountBy(in, func(v int) int { return v })
+		if len(gs) != len(order) || len(cs) != len(order) {
+			fail("GroupBy:groups", fmt.Sprintf("GroupBy/CountBy give %d/%d groups want %d", len(gs), len(cs), len(order)))
+			return
+		}
+		for i, k := range order {
+			if gs[i].Key != k || len(gs[i].Values) != cnt[k] || cs[i].Key != k || cs[i].Count != cnt[k] {
+				fail("GroupBy:group", fmt.Sprintf("group %d: key %d with %d members / count %d, want key %d with %d", i, gs[i].Key, len(gs[i].Values), cs[i].Count, k, cnt[k]))
+				return
+			}
+		}
+		last := -1
+		for i, v := range snap {
+			if v == 49 {
+				last = i
+				break
+			}
+		}
+		if got := slices.Index(in, 49); got != last || slices.Contains(in, 50) || !slices.Contains(in, snap[n-1]) || slices.IndexFunc(in, func(v int) bool { return v == 49 }) != last {
+			fail("Index:result", fmt.Sprintf("Index/IndexFunc(49)=%d want %d, or Contains wrong", got, last))
+			return
+		}
+		if !slices.All(in, func(v int) bool { return v < 50 }) || slices.Any(in, func(v int) bool { return v >= 50 }) || slices.Last(in) != snap[n-1] {
+			fail("Any/All/Last", "Any/All/Last wrong")
+			return
+		}
+		if !eqSlice(in, snap) || in[:n+3][n] != -99 || in[:n+3][n+2] != -99 {
+			fail("input-modified", "a helper modified its input or its spare capacity")
+			return
+		}
+	}
+	c.Count("inputs_beyond_32768_elements", 1)
+	c.NonTrivial(core.Mix(c.Seed, uint64(n), 1414))
 }
 
 func clipS(s []string) []string {
